@@ -1,6 +1,7 @@
 import XmppModel.Prelude.Hex
 import XmppModel.Prelude.Xml
 import XmppModel.Model.Stanza
+import XmppModel.Model.Encoder
 /-! Driver for C13 (see harness/c13 for the line protocol).  All text fields hex (`-` empty).
 
     start <kind> <space> <id> <to> <from> <lang> <typ>          -> start token
@@ -20,6 +21,9 @@ def parseKind : String → Option Kind
   | "iq" => some .iq | "message" => some .message | "presence" => some .presence | _ => none
 
 def hx (s : String) : String := hexEncodeStr s
+
+/-- tokens are printed with sorted attributes (order carries no meaning) -/
+def showToks (ts : List Tok) : String := encToks (Encoder.normAttrs ts)
 
 /-- `v=j` pairs (hex); `j` = `!` for a parse error -/
 def parseTable (s : String) : Option (List (String × Option String)) :=
@@ -58,7 +62,7 @@ def handle (args : List String) : Option String :=
   match args with
   | ["start", k, sp, id, to, fr, lang, typ] => do
     let k ← parseKind k; let x ← mkStz sp id to fr lang typ
-    pure (encTok (startElement k x))
+    pure (showToks [startElement k x])
   | ["new", k, tok, table] => do
     let k ← parseKind k; let t ← decTok tok; let tb ← parseTable table
     match t with
@@ -69,18 +73,18 @@ def handle (args : List String) : Option String :=
     | _ => none
   | ["wrap", k, sp, id, to, fr, lang, typ, payload] => do
     let k ← parseKind k; let x ← mkStz sp id to fr lang typ; let p ← decToks payload
-    pure (encToks (wrap k x p))
+    pure (showToks (wrap k x p))
   | ["result", sp, id, to, fr, lang, typ, payload] => do
     let x ← mkStz sp id to fr lang typ; let p ← decToks payload
-    pure (encToks (result x p))
+    pure (showToks (result x p))
   | ["error", k, sp, id, to, fr, lang, typ, by_, etyp, cond, texts] => do
     let k ← parseKind k; let x ← mkStz sp id to fr lang typ
     let b ← hexDecodeStr by_; let et ← hexDecodeStr etyp; let c ← hexDecodeStr cond; let tx ← parseTexts texts
-    pure (encToks (errorReply k x ⟨b, et, c, tx⟩))
+    pure (showToks (errorReply k x ⟨b, et, c, tx⟩))
   | ["serr", by_, etyp, cond, texts, payload] => do
     let b ← hexDecodeStr by_; let et ← hexDecodeStr etyp; let c ← hexDecodeStr cond; let tx ← parseTexts texts
     let p ← decToks payload
-    pure (encToks (errTokens ⟨b, et, c, tx⟩ p))
+    pure (showToks (errTokens ⟨b, et, c, tx⟩ p))
   | ["sdec", toks, table] => do
     let ts ← decToks toks; let tb ← parseTable table
     match decodeErr (lookup tb) ts with
@@ -88,7 +92,7 @@ def handle (args : List String) : Option String :=
     | none => pure "err"
   | ["sterr", err, content, texts, payload] => do
     let e ← hexDecodeStr err; let c ← hexDecodeStr content; let tx ← parseTexts texts; let p ← decToks payload
-    pure (encToks (streamErrTokens ⟨e, tx, c⟩ p))
+    pure (showToks (streamErrTokens ⟨e, tx, c⟩ p))
   | ["stdec", toks] => do
     let ts ← decToks toks
     match decodeStreamErr ts with
